@@ -112,6 +112,7 @@ type Case struct {
 	Seq        []Step       `json:"seq,omitempty"` // further calls on the same verifier / key-set / provider instance
 	Prov       *ProvOpts    `json:"prov,omitempty"` // prov-access / prov-hint / hint-http / hint-end-http: verification options of op.NewProvider; Keys stays what the storage publishes
 	Conc       *Conc        `json:"conc,omitempty"`  // set: concurrent sub-check (TestConcurrent*, conc_test.go); Tok mirrors the first token, Seq unused
+	Rot        *Rot         `json:"rot,omitempty"`   // set: rotation sub-check on the rp remote key set (TestRotation, rot_test.go): key sets published one after the other and a schedule of verifications / held downloads; Keys mirrors the first set, Tok the first token, Seq unused
 	Stale      string       `json:"stale,omitempty"` // op-hint: the verifier has MaxAgeIAT ("iat") or MaxAge ("auth"; tokens carry auth_time 2020) of one hour: every token of the case fails a time check
 }
 
